@@ -5,6 +5,7 @@ import MotoModel.Proofs.TapeFiles
 import MotoModel.Props.C03
 import MotoModel.Props.C08
 import MotoModel.Props.C09
+import MotoModel.Proofs.PathNorm
 namespace Moto.C01
 open Moto Moto.Tape
 
@@ -89,7 +90,7 @@ theorem readLoop_files (dir : Str) (fs : List Spec.K7.SFile) : ∀ (s : RState),
     each file byte for byte under its upper-cased name next to the archive (or under `--into`),
     in order, and list names exactly those files in the order given. -/
 theorem roundtrip (w : World) (v1 v2 : Bool) (archive : Str) (into : Option Str) (srcs : List Str)
-    (hr : AllReadable w srcs) (hn : ValidNames srcs)
+    (hr : AllReadable w archive srcs) (hn : ValidNames srcs)
     (hfit : Spec.K7.encSize (srcs.map (C03.specFile w)) < 21504)
     (hk : ∀ s ∈ srcs, samePath (pathJoin (targetDirOf archive into) (catalogName s)) archive = false) :
     ∃ tape, (inject w v1 archive srcs).writes = [(archive, tape)]
@@ -163,7 +164,7 @@ theorem contentAfter_of_nodup : ∀ (writes : List (Str × Bytes)), (writes.map 
     are pairwise distinct, after create then extract every source's content sits under its
     upper-cased 8.3 name in the destination: no file overwrites another -/
 theorem roundtrip_directory (w : World) (v1 v2 : Bool) (archive : Str) (into : Option Str) (srcs : List Str)
-    (hr : AllReadable w srcs) (hn : ValidNames srcs)
+    (hr : AllReadable w archive srcs) (hn : ValidNames srcs)
     (hfit : Spec.K7.encSize (srcs.map (C03.specFile w)) < 21504)
     (hd : (srcs.map fun s => pathJoin (targetDirOf archive into) (catalogName s)).Nodup)
     (hk : ∀ s ∈ srcs, samePath (pathJoin (targetDirOf archive into) (catalogName s)) archive = false) :
@@ -178,6 +179,33 @@ theorem roundtrip_directory (w : World) (v1 v2 : Bool) (archive : Str) (into : O
     (by simpa [List.map_map, Function.comp_def] using hd)
     (pathJoin (targetDirOf archive into) (catalogName s), contentOf w s) (List.mem_map_of_mem hs)
   exact this
+
+/-- an ordinary archived name is a plain path component -/
+theorem nameOK_plain (name ext : Str) (h : NameOK name ext) : 47 ∉ (name ++ [46] ++ ext) ∧ PlainComp (name ++ [46] ++ ext) := by
+  have ho := h.openable
+  unfold openable at ho
+  simp only [Bool.and_eq_true, bne_iff_ne, ne_eq, Bool.not_eq_true'] at ho
+  refine ⟨by simpa using h.no_slash, ?_, ho.1.1.1, ho.1.1.2⟩
+  simp
+
+/-- **C01 (round trip beside the archive)**: without `--into`, the only path condition is that the archive
+    is not named like one of the files it holds: for every ordered list of readable sources with ordinary
+    8.3 names that fits, none of whose catalog names is the archive's base name, create writes an archive
+    from which extract writes each file byte for byte under its upper-cased name next to the archive, in
+    order, and list names exactly those files. (A member named like the archive is refused: C20.) -/
+theorem roundtrip_beside_archive (w : World) (v1 v2 : Bool) (archive : Str) (srcs : List Str)
+    (hr : AllReadable w archive srcs) (hn : ValidNames srcs)
+    (hfit : Spec.K7.encSize (srcs.map (C03.specFile w)) < 21504)
+    (hne : ∀ s ∈ srcs, catalogName s ≠ basename archive) :
+    ∃ tape, (inject w v1 archive srcs).writes = [(archive, tape)]
+      ∧ (extract v2 archive none tape).status = .ret 0
+      ∧ (extract v2 archive none tape).writes
+          = srcs.map (fun s => (pathJoin (dirname archive) (catalogName s), contentOf w s))
+      ∧ (enumerate false tape).status = .ret 0
+      ∧ (enumerate false tape).out = srcs.map catalogName :=
+  roundtrip w v1 v2 archive none srcs hr hn hfit (fun s hs => by
+    obtain ⟨h47, hp⟩ := nameOK_plain _ _ (hn s hs)
+    exact one_below_dirname_not_archive archive (catalogName s) h47 hp (hne s hs))
 
 /-- the hypotheses are satisfiable: an ordinary name is `NameOK` -/
 example : NameOK (str "A") (str "BAS") := ⟨by decide, by decide, by decide, by decide, by decide⟩
